@@ -117,6 +117,27 @@ var HostileStrings = []string{
 	"", "a", "b", "1", "0", "true", "false", "1E+00", "1.5", "x,y:z", "|", "{}", "[]", "name:", ",", ":", "\"", "\\",
 	"é", "日本", "a\x00b", "|version:", "res:{", "k:v", " ", "NaN", "null", "k", "v",
 	"0000000000000001", "AQ==", "a,b:c", "x", "y",
+	// values a "helpful" normalisation would rewrite: surrounding whitespace,
+	// case, list syntax with optional whitespace, trailing slash
+	" a", "a ", "A", "\ta", "a\n", "a=1,b=2", "a=1, b=2", " a=1 ,\tb=2,", "http://x", "HTTP://X/", "Info", "INFO",
+}
+
+// traceStates are W3C trace-state shaped values (list members key=value,
+// optional whitespace, empty members) next to the equivalent compact forms.
+var traceStates = []string{
+	"congo=t61rcWkgMzE,rojo=00f067aa0ba902b7", "congo=t61rcWkgMzE, rojo=00f067aa0ba902b7", "vendor1=opaque1 ,\tvendor2=opaque2,",
+	"a=1", " a=1", "a=1,", "a=1,,b=2", "a=1 , b=2", "a=1,b=2",
+}
+
+// TraceState draws a trace-state string.
+func (s *Stream) TraceState(feature string) string {
+	if !s.On(feature) {
+		return ""
+	}
+	if rapid.Bool().Draw(s.T, "tsw3c") {
+		return rapid.SampledFrom(traceStates).Draw(s.T, "tsv")
+	}
+	return s.Str()
 }
 
 var invalidUTF8 = []string{"\xff", "a\xc3", "\xed\xa0\x80", "\xf8\x88\x80\x80\x80"}
